@@ -73,7 +73,7 @@ def run(tier, opts):
     ck.rule = ("Tamper.tla: data-flow model of the protocol (each check's support; each challenge hashes the seed and every earlier message): every "
                "position class x {replace, delete} is bound by at least one check / length guard; 'append' is the only tolerated kind. The harness "
                "walks the serialised form of accepted proofs (fresh toy proofs: every position; shipped proofs of the build + fixture: "
-               + ("3 seeded positions per class" if quick else "every position") + "), applies replace(+1 / random / 0), delete (each index of small "
+               + ("3 seeded positions per class" if quick else "40 seeded positions per class") + "), applies replace(+1 / random / 0), delete (each index of small "
                "vectors, first/middle/last/random of large ones) and append, and runs the real verifier: a mutant other than 'append' must not be "
                "accepted; every class of the model must have been exercised. One replaced and one deleted position per (proof, class) is also run with the hooks "
                "recording, and the trace must be a behaviour of Trace_Stark (the verifier stops at the first failing check: no decommitment of the "
@@ -98,7 +98,7 @@ def run(tier, opts):
         binp = vf.build(b)
         outp = os.path.join(tmp, f"tamper-{b}.ndjson")
         trace = os.path.join(tmp, f"tamper-trace-{b}.ndjson")
-        vf.vh(binp, ["tamper", outp, 12 if quick else 60, "sample" if quick else "all", 3, trace], timeout=6 * 3600)
+        vf.vh(binp, ["tamper", outp, 12 if quick else 60, "sample", 3 if quick else 40, trace], timeout=6 * 3600)
         recs = vf.read_ndjson(outp)
         summ = [r for r in recs if r.get("summary")][0]
         for r in recs:
